@@ -26,6 +26,7 @@ import (
 	"perun.network/go-perun/client"
 	"perun.network/go-perun/wallet"
 	"perun.network/go-perun/wire"
+	"perun.network/go-perun/wire/perunio"
 )
 
 // ToLedgerChannelProposalMsg converts a protobuf Envelope_LedgerChannelProposalMsg to a client
@@ -207,6 +208,11 @@ func ToBaseChannelProposal(protoProp *BaseChannelProposal) (prop client.BaseChan
 		return prop, errors.WithMessage(err, "init bals")
 	}
 	prop.FundingAgreement = ToBalances(protoProp.GetFundingAgreement())
+	for i := range prop.FundingAgreement {
+		if err = checkBalanceLengths(prop.FundingAgreement[i]); err != nil {
+			return prop, errors.WithMessagef(err, "funding agreement of %d'th asset", i)
+		}
+	}
 	prop.App, prop.InitData, err = ToAppAndData(protoProp.GetApp(), protoProp.GetInitData())
 	copy(prop.Aux[:], protoProp.GetAux())
 	return prop, err
@@ -306,6 +312,11 @@ func ToAllocation(protoAlloc *Allocation) (alloc *channel.Allocation, err error)
 		}
 	}
 	alloc.Balances = ToBalances(protoAlloc.GetBalances())
+	for i := range alloc.Balances {
+		if err = checkBalanceLengths(alloc.Balances[i]); err != nil {
+			return nil, errors.WithMessagef(err, "balances of %d'th asset", i)
+		}
+	}
 	if err = alloc.Valid(); err != nil {
 		return nil, errors.WithMessage(err, "invalid allocation")
 	}
@@ -330,11 +341,25 @@ func ToBalance(protoBalance *Balance) (balance []channel.Bal) {
 	return balance
 }
 
+// checkBalanceLengths checks that every amount fits the maximum length of a
+// big integer, as the native decoder does (perunio.MaxBigIntLength).
+func checkBalanceLengths(balance []channel.Bal) error {
+	for j := range balance {
+		if length := len(balance[j].Bytes()); length > perunio.MaxBigIntLength {
+			return fmt.Errorf("%d'th amount too long: %d bytes, maximum %d", j, length, perunio.MaxBigIntLength) // We do not want to define this as constant error.
+		}
+	}
+	return nil
+}
+
 // ToSubAlloc converts a protobuf SubAlloc to a channel.SubAlloc.
 func ToSubAlloc(protoSubAlloc *SubAlloc) (subAlloc channel.SubAlloc, err error) {
 	subAlloc = channel.SubAlloc{}
 
 	subAlloc.Bals = ToBalance(protoSubAlloc.GetBals())
+	if err = checkBalanceLengths(subAlloc.Bals); err != nil {
+		return subAlloc, err
+	}
 	if len(protoSubAlloc.GetId()) != len(subAlloc.ID) {
 		return subAlloc, errors.New("sub alloc id has incorrect length")
 	}
